@@ -2,12 +2,12 @@
 from __future__ import annotations
 import itertools
 import numpy as np
-import impl, gen, oracle, evalutil as E
+import scale, impl, gen, oracle, evalutil as E
 from impl import quiet, F
 from common import close, same_value
 from panoptica.utils.numpy_utils import _get_bbox_nd
 
-RULE = ("base pairs (objects on every face of the array, thin/diagonal/split/merged instances) x input types x matchers "
+RULE = ("large-scale corpus (implementation only, metamorphic): thin-instance scenes embedded in 2-D canvases of 2.1M-4.3M voxels at offsets of every parity, plain and mirrored; small scenes in 3-D volumes of 1.3M-4.35M voxels; one matched instance of 2060^2 voxels under even/odd padding and mirroring; base pairs (objects on every face of the array, thin/diagonal/split/merged instances) x input types x matchers "
         "(thresholds below and at 1/2) x {zero padding 0-3 per side per axis, cropping of shared empty margins, every "
         "subset of axis flips, every axis permutation} x memory layouts {C, Fortran, negative strides, non-contiguous view} chosen independently for the two maps; embedding in volumes of more than 2^20 voxels; "
         "plus model/implementation correspondence of the bounding box (all paddings) and of the whole-pair crop; "
@@ -180,8 +180,9 @@ def huge_padding(ctx, n):
         base = E.run_impl(cfg, pred, ref)
         if isinstance(base, str):
             continue
-        big_shape = (128, 128, 80)
-        for off in [(rng.randint(0, 100), rng.randint(0, 100), rng.randint(0, 60)) for _ in range(2)] + [(41, 41, 41), (42, 41, 41)]:
+        big_shape = rng.choice([(128, 128, 80), (160, 160, 90), (170, 160, 160)])      # 1.3M, 2.3M (> 2^21), 4.35M (> 2^22) voxels
+        lim = [n - 7 for n in big_shape]
+        for off in [tuple(rng.randint(0, l) for l in lim) for _ in range(2)] + [(41, 41, 41), (42, 41, 41)]:
             P = np.zeros(big_shape, np.uint8)
             R = np.zeros(big_shape, np.uint8)
             sl = tuple(slice(o, o + 6) for o in off)
@@ -195,6 +196,91 @@ def huge_padding(ctx, n):
             if d:
                 ctx.violation(f"result changes when the scene is embedded in a {big_shape} volume at offset {off}: {d}", inp,
                               impl={"base": base["ungrouped"], "embedded": got if isinstance(got, str) else got["ungrouped"]},
+                              key={"kind": "not-invariant"})
+
+
+def thin_scene(rng):
+    """2-D scene with a block pair and thin outlying instances (single voxels, one-voxel-thick lines) whose
+    coordinates are all odd or all even"""
+    H, W = rng.randint(30, 44), rng.randint(30, 40)
+    ref = np.zeros((H, W), np.uint8)
+    pred = np.zeros((H, W), np.uint8)
+    ref[2:9, 2:9] = 1
+    pred[3:10, 2:9] = 1
+    y, x = rng.randrange(15, H - 2), rng.randrange(15, W - 8)
+    ref[y, x] = 2
+    pred[y, x] = 2
+    y2 = rng.randrange(12, H - 1)
+    ref[y2, 20:27] = 3            # a one-voxel-thick line
+    pred[y2, 20:26] = 3
+    return pred, ref
+
+
+def big_canvas(ctx, n):
+    """a thin-instance scene embedded in 2-D canvases of more than 2^21 voxels at offsets of every parity,
+    plain and mirrored; all three input types"""
+    rng = ctx.rng
+    for k in range(n):
+        pred, ref = thin_scene(rng)
+        it = rng.choice(["UNMATCHED", "SEMANTIC", "MATCHED"])
+        cfg = E.mk_cfg(it, ["IOU", "DSC", "RVD"] + (["ASSD"] if rng.random() < 0.5 else []),
+                       matcher=None if it == "MATCHED" else E.naive("IOU", (1, 4)))
+        base = E.run_impl(cfg, pred, ref)
+        if isinstance(base, str):
+            continue
+        canvas = rng.choice([(1600, 1500), (1450, 1449), (2100, 2050)])
+        for off in [(rng.randint(0, 1300), rng.randint(0, 1300)), (400, 400), (401, 400), (400, 401), (401, 401)][: (3 if ctx.quick else 5)]:
+            for flip in ([], [0], [0, 1])[: (2 if ctx.quick else 3)]:
+                rec = {"kind": "embed", "small_pred": pred.tolist(), "small_ref": ref.tolist(), "canvas": list(canvas), "offset": list(off),
+                       "flip": flip, "dtype": "uint8"}
+                P, R = scale.build(rec)
+                inp = {"recipe": rec, "cfg": cfg, "src": f"canvas{k}"}
+                ctx.case(inp, True)
+                ctx.count("big_canvas")
+                got = E.run_impl(cfg, P, R)
+                d = "raised " + got if isinstance(got, str) else summ_equal(base["ungrouped"], got["ungrouped"], cfg["eval_metrics"])
+                if d:
+                    ctx.violation(f"result changes when the scene is embedded in a {canvas} canvas at offset {off}, mirrored axes {flip}: {d}", inp,
+                                  impl={"base": base["ungrouped"], "embedded": got if isinstance(got, str) else got["ungrouped"]},
+                                  key={"kind": "not-invariant"})
+
+
+def big_instance(ctx, n):
+    """one matched instance whose crop exceeds 2^22 voxels, surfaces an odd number of voxels apart; ASSD and the
+    counts must not change under zero padding (even / odd), mirroring and transposition"""
+    rng = ctx.rng
+    for k in range(n):
+        side = rng.choice([2060, 2061, 2075])
+        lo = 1                                        # the un-padded variant has its crop clipped at the array edge
+        ref_box = [[lo, lo], [lo + side, lo + side], 1]
+        d = rng.choice([1, 3])
+        # the prediction lacks the first d rows of the reference except for a 40-voxel notch (no mirror symmetry)
+        pred_box = [[lo + d, lo], [lo + side, lo + side], 1]
+        notch = [[lo, lo], [lo + d, lo + 40], 1]
+        shape = [lo + side + 3, lo + side + 2]
+        cfg = E.mk_cfg("MATCHED", ["ASSD", "IOU"])
+        results = []
+        variants = [("base", [0, 0], []), ("pad6", [6, 6], []), ("pad7-5", [7, 5], []), ("mirror", [0, 0], [0])][: (3 if ctx.quick else 4)]
+        for name, pad, flip in variants:
+            rec = {"kind": "boxes", "shape": [shape[0] + 2 * pad[0], shape[1] + 2 * pad[1]], "dtype": "uint8",
+                   "ref_boxes": [[[a + p for a, p in zip(ref_box[0], pad)], [a + p for a, p in zip(ref_box[1], pad)], 1]],
+                   "pred_boxes": [[[a + p for a, p in zip(bx[0], pad)], [a + p for a, p in zip(bx[1], pad)], 1] for bx in (pred_box, notch)]}
+            P, R = scale.build(rec)
+            for ax in flip:
+                P, R = np.ascontiguousarray(np.flip(P, ax)), np.ascontiguousarray(np.flip(R, ax))
+            if name == "base":
+                base_rec = rec
+            inp = {"recipe": rec, "base_recipe": base_rec, "flip": flip, "cfg": cfg, "variant": name, "src": f"biginst{k}"}
+            ctx.case(inp, True)
+            ctx.count("big_instance")
+            got = E.run_impl(cfg, P, R)
+            results.append((name, inp, got))
+        b = results[0][2]
+        for name, inp, got in results[1:]:
+            dd = "raised" if isinstance(got, str) or isinstance(b, str) else summ_equal(b["ungrouped"], got["ungrouped"], cfg["eval_metrics"])
+            if dd:
+                ctx.violation(f"result of a {side}x{side} instance changes under {name}: {dd}", inp,
+                              impl={"base": b if isinstance(b, str) else b["ungrouped"], name: got if isinstance(got, str) else got["ungrouped"]},
                               key={"kind": "not-invariant"})
 
 
@@ -256,7 +342,9 @@ def run_cases(ctx, n, tag):
 
 def run(ctx):
     corpus(ctx)
-    huge_padding(ctx, ctx.scale(2, 10))
+    huge_padding(ctx, ctx.scale(3, 12))
+    big_canvas(ctx, ctx.scale(2, 8))
+    big_instance(ctx, ctx.scale(1, 3))
     run_cases(ctx, ctx.scale(350, 3500), "rand")
 
 
@@ -266,6 +354,21 @@ def search(ctx):
 
 def replay(ctx, rec):
     i = rec["input"]
+    if "recipe" in i:
+        P, R = scale.build(i["recipe"])
+        if i["recipe"]["kind"] == "embed":
+            dt = np.dtype(i["recipe"].get("dtype", "uint8"))
+            base = E.run_impl(i["cfg"], np.array(i["recipe"]["small_pred"], dtype=dt), np.array(i["recipe"]["small_ref"], dtype=dt))
+        else:
+            for ax in i.get("flip", []):
+                P, R = np.ascontiguousarray(np.flip(P, ax)), np.ascontiguousarray(np.flip(R, ax))
+            base = E.run_impl(i["cfg"], *scale.build(i["base_recipe"]))
+        got = E.run_impl(i["cfg"], P, R)
+        ctx.case(i, True)
+        d = "raised" if isinstance(got, str) or isinstance(base, str) else summ_equal(base["ungrouped"], got["ungrouped"], i["cfg"]["eval_metrics"])
+        if d:
+            ctx.violation(f"result changes under embedding / padding of a large scene: {d}", i, key={"kind": "not-invariant"})
+        return
     pred = np.array(i["pred"], dtype=np.uint8).reshape(i["shape"])
     ref = np.array(i["ref"], dtype=np.uint8).reshape(i["shape"])
     if i.get("huge"):
